@@ -137,8 +137,9 @@ Proof.
     - rewrite flat_map_single. apply map_ext_in. intros qm Hq. apply filter_In in Hq.
       unfold A, g, flags_item. rewrite (proj2 Hq). reflexivity. }
   rewrite Hitems. clear Hitems.
-  fold L in Hg. unfold L at 1 2.
-  rewrite (finish_flags_only b s g _ uid _ Hv Hnd Hg). fold L.
+  match goal with |- context [finish _ s _ ?S uid ?I] =>
+    pose proof (finish_flags_only b s g S uid I Hv Hnd Hg) as Hfin end.
+  fold L in Hfin. rewrite Hfin. clear Hfin.
   (* the mailbox the two sides end with is the same term *)
   assert (Hfits : st_bk st = Maildir -> forall qm, In qm L ->
             subset (op_apply op (m_flags (snd qm)) pf) (b_perm b) = true).
@@ -182,6 +183,111 @@ Proof.
     + reflexivity.
     + intros Hk. cbn [b_msgs set_msgs]. apply Forall_forall. intros m' Hm'. apply in_map_iff in Hm'.
       destruct Hm' as ([q m] & <- & Hq). unfold g. destruct (addr (q, m)); cbn [snd].
+      * unfold upd, upd_flags. cbn [m_flags set_flags]. apply storable_sub, Hk.
+      * destruct (Hmd Hk) as [_ HF]. rewrite Forall_forall in HF. apply HF. eapply enum_from_In_snd, Hq.
+Qed.
+
+(* ------------------------------------------------------------------ FETCH *)
+Lemma set_seen_rfc a : attr_set_seen a = rfc_sets_seen a.
+Proof. destruct a as [[] sct c]; reflexivity. Qed.
+
+Lemma existsb_same {A} (f g : A -> bool) l : (forall x, f x = g x) -> existsb f l = existsb g l.
+Proof. intros H. induction l as [|x r IH]; cbn; [reflexivity|]. rewrite H, IH. reflexivity. Qed.
+
+Lemma sim_fetch st uid ss attrs : Inv st -> sim_ok st (CFetch uid ss attrs).
+Proof.
+  intros HI. unfold sim_ok. cbn [step spec_step]. unfold do_fetch, spec_fetch.
+  cbn [abs sp_sel sp_boxes sp_bk].
+  destruct (st_sel st) as [s|] eqn:Es; cbn [option_map].
+  2:{ cbn. split; [reflexivity|split; [reflexivity|exact HI]]. }
+  cbn [abs_sel ss_ro ss_box ss_recent].
+  destruct (inv_selected st s HI Es) as (b & Hl & Hv & Hp & Hok & Hmd). rewrite Hl.
+  pose proof (box_ok_NoDup b Hok) as Hnd.
+  rewrite Hv, get_all_spec by apply Hok.
+  rewrite (existsb_same attr_set_seen rfc_sets_seen attrs set_seen_rfc).
+  set (seen := negb (s_ro s) && existsb rfc_sets_seen attrs).
+  set (addr := fun qm : N * msg => addressed uid ss (b_msgs b) (fst qm) (snd qm)).
+  set (upd := upd_flags (st_bk st) (b_perm b) OpAdd [FSeen]).
+  set (g := fun qm : N * msg => if addr qm && seen then upd (snd qm) else snd qm).
+  set (L := enumerate (b_msgs b)).
+  assert (Hg : forall qm, In qm L -> m_uid (g qm) = m_uid (snd qm)).
+  { intros qm _. unfold g. destruct (addr qm && seen); reflexivity. }
+  assert (Hres : (if seen then update_loop (st_bk st) b (filter addr L) [FSeen] OpAdd
+                  else (b, get_loop b (filter addr L)))
+                 = (set_msgs b (map g L), map (fun qm => (fst qm, g qm, false)) (filter addr L))).
+  { destruct seen eqn:Eseen.
+    - pose proof (update_loop_spec (st_bk st) b OpAdd [FSeen] addr (b_msgs b) [] 1 Hnd) as Hloop.
+      cbn [app] in Hloop. rewrite set_msgs_self in Hloop. fold (enumerate (b_msgs b)) in Hloop.
+      fold upd in Hloop. fold L in Hloop. rewrite Hloop. f_equal.
+      + f_equal. apply map_ext. intros qm. unfold g. rewrite andb_true_r. reflexivity.
+      + apply map_ext_in. intros qm Hq. apply filter_In in Hq. unfold g. rewrite (proj2 Hq). reflexivity.
+    - rewrite get_loop_spec; [|exact Hnd|].
+      + f_equal.
+        * replace (map g L) with (b_msgs b); [symmetry; apply set_msgs_self|].
+          unfold g, L, enumerate. rewrite <- (enum_from_snd 1 (b_msgs b)) at 1.
+          apply map_ext. intros qm. rewrite andb_false_r. reflexivity.
+        * apply map_ext. intros qm. unfold g. rewrite andb_false_r. reflexivity.
+      + intros [q m] Hq. apply filter_In in Hq. cbn [snd]. exact (enum_from_In_snd _ _ _ _ (proj1 Hq)). }
+  fold L. rewrite Hres. clear Hres.
+  set (res := map (fun qm => (fst qm, g qm, false)) (filter addr L)).
+  assert (Hany : any_expunged res = false).
+  { unfold any_expunged, res. induction (filter addr L) as [|x r IH]; cbn; [reflexivity|exact IH]. }
+  rewrite Hany.
+  set (A := fun qm : N * msg =>
+     mkItem (fst qm)
+       (if uid || has_attr AUid attrs then Some (m_uid (g qm)) else None)
+       (if has_attr AFlags attrs
+        then Some (with_recent (m_flags (g qm)) (memN (m_uid (g qm)) (s_recent s))) else None)
+       (if has_attr AInternalDate attrs then Some (m_date (g qm)) else None)
+       (if existsb fa_content attrs then Some (m_cid (g qm)) else None)).
+  assert (Hitems : map (fun x : N * msg * bool => let '(q, m, _) := x in
+                     UFetch (mkItem q
+                       (if uid || has_attr AUid attrs then Some (m_uid m) else None)
+                       (if has_attr AFlags attrs
+                        then Some (with_recent (m_flags m) (memN (m_uid m) (s_recent s))) else None)
+                       (if has_attr AInternalDate attrs then Some (m_date m) else None)
+                       (if existsb fa_content attrs then Some (m_cid m) else None))) res
+                   = map (fun qm => UFetch (A qm)) (filter addr L)).
+  { unfold res. rewrite map_map. reflexivity. }
+  rewrite Hitems. clear Hitems.
+  match goal with |- context [finish _ s _ ?S uid ?I] =>
+    pose proof (finish_flags_only b s g S uid I Hv Hnd Hg) as Hfin end.
+  fold L in Hfin. rewrite Hfin. clear Hfin.
+  split; [|split].
+  - cbn [snd]. f_equal.
+    set (B := fun qm : N * msg => mkItem (fst qm) (if uid then Some (m_uid (g qm)) else None)
+                (Some (with_recent (m_flags (g qm)) (memN (m_uid (g qm)) (s_recent s)))) None None).
+    pose proof (merge_fold (N * msg) fst A B addr
+                  (fun qm => negb (fset_eqb (m_flags (snd qm)) (m_flags (g qm))) && negb (key_silenced (g qm) []))
+                  (fun _ => eq_refl) (fun _ => eq_refl)) as Hm.
+    specialize (Hm (fun x H => ltac:(
+      unfold g in H; destruct (addr x); [reflexivity|cbn [andb] in H; rewrite fset_eqb_refl in H; discriminate H]))).
+    specialize (Hm L []). cbn [app] in Hm. unfold A, B in Hm |- *. cbn beta in Hm |- *. rewrite Hm.
+    + rewrite flat_map_filter. apply map_ext_in. intros [q m] Hq. apply filter_In in Hq.
+      destruct Hq as [Hq Ha]. unfold merged. cbn [fst snd]. unfold addr in Ha. cbn [fst snd] in Ha.
+      fold addr in Ha. cbn [key_silenced existsb negb]. rewrite andb_true_r.
+      assert (Eg : g (q, m) = if seen then upd m else m).
+      { unfold g. cbn [snd]. unfold addr at 1. cbn [fst snd]. rewrite Ha. reflexivity. }
+      assert (Eu : m_uid (g (q, m)) = m_uid m) by (apply (Hg (q, m) Hq)).
+      assert (Ed : m_date (g (q, m)) = m_date m) by (rewrite Eg; destruct seen; reflexivity).
+      assert (Ec : m_cid (g (q, m)) = m_cid m) by (rewrite Eg; destruct seen; reflexivity).
+      rewrite Eu, Ed, Ec.
+      replace (if addressed uid ss (b_msgs b) q m && seen
+               then set_flags m (storable (st_bk st) (b_perm b) (union (m_flags m) [FSeen])) else m)
+        with (g (q, m)) by (rewrite Eg, Ha; reflexivity).
+      destruct (fset_eqb (m_flags m) (m_flags (g (q, m)))); cbn [negb];
+        unfold merge_item; cbn [fi_seq fi_uid fi_flags fi_date fi_cid];
+        destruct uid, (has_attr AUid attrs), (has_attr AFlags attrs),
+                 (has_attr AInternalDate attrs), (existsb fa_content attrs); reflexivity.
+    + apply enum_keys_NoDup.
+    + intros x _ [].
+  - cbn [fst]. unfold abs, set_sel, sset.
+    cbn [st_bk st_boxes st_sel option_map abs_sel s_box s_ro s_recent]. reflexivity.
+  - cbn [fst]. apply (inv_replace st s b (set_msgs b (map g L))); try assumption.
+    + apply box_ok_same_uids; [exact Hok|]. cbn [b_msgs set_msgs]. apply uids_map_same. exact Hg.
+    + reflexivity.
+    + intros Hk. cbn [b_msgs set_msgs]. apply Forall_forall. intros m' Hm'. apply in_map_iff in Hm'.
+      destruct Hm' as ([q m] & <- & Hq). unfold g. destruct (addr (q, m) && seen); cbn [snd].
       * unfold upd, upd_flags. cbn [m_flags set_flags]. apply storable_sub, Hk.
       * destruct (Hmd Hk) as [_ HF]. rewrite Forall_forall in HF. apply HF. eapply enum_from_In_snd, Hq.
 Qed.
